@@ -92,3 +92,11 @@ pub broadcast proof fn axiom_i64_from_u32(x: u32)
 #[verifier::external_body]
 pub proof fn axiom_i64_from_u32_obeys() ensures <i64 as FromSpec<u32>>::obeys_from_spec() {}
 ''')
+
+
+def option_helpers(U):
+    """std Option adapters that Verus has no spec for; ASSUMED to be what std documents (lets equivalent rewrites verify)"""
+    U.add('''
+pub assume_specification<T: Copy> [Option::<&T>::copied] (o: Option<&T>) -> (r: Option<T>)
+    ensures r == (match o { Some(x) => Some(*x), None => None::<T> });
+''')
